@@ -219,4 +219,233 @@ theorem mem_whereTrue {m : List Bool} {i : Nat} (h : i ∈ whereTrue m) : m.getD
   unfold whereTrue at h
   exact (List.mem_filter.mp h).2
 
+/-! ### acceptance / rejection as a total decision -/
+theorem firstGroup_known {s : List Char} {g : String} (h : firstGroup s = some g) : known g = true := by
+  unfold firstGroup at h
+  have := List.mem_of_find?_eq_some h
+  unfold known
+  simpa using this
+
+/-- mask of one known group, as a total function of the exposure vector -/
+def groupMask (arr : Arr) (nz : Nat) (exts : List Nat) (g : String) : List Bool :=
+  exts.map fun e => (g == "all") || groupTest arr nz g e
+
+theorem maskOf_known (arr : Arr) (nz : Nat) (exts : List Nat) {g : String} (hk : known g = true) :
+    maskOf arr nz exts [g] = .ok (groupMask arr nz exts g) := by
+  unfold maskOf groupMask
+  induction exts with
+  | nil => rfl
+  | cons e es ih =>
+    rw [List.mapM_cons, ih]
+    by_cases hall : (g == "all") = true
+    · simp [groupLoop, hall, bind, Except.bind, pure, Except.pure]
+    · simp [groupLoop, hall, hk, bind, Except.bind, pure, Except.pure]
+
+
+
+/-- the vials a request string selects from: the first group word found, else every vial -/
+def candidates (arr : Arr) (nz : Nat) (exts : List Nat) (s : List Char) : List Nat :=
+  match firstGroup s with
+  | some g => whereTrue (groupMask arr nz exts g)
+  | none => whereTrue (List.replicate exts.length true)
+
+/-- **category table for one request string** (`none`: well-formed; `some cls`: the
+exception class raised at construction). -/
+def strOutcome (arr : Arr) (nz : Nat) (exts : List Nat) (str : String) : Option String :=
+  let s := lower str
+  let rnd := hasSub "random".toList s
+  let uni := hasSub "uniform".toList s
+  let nums := digitRuns s none
+  let count := match nums with | [] => defaultCount exts.length | n :: _ => n
+  let size := (candidates arr nz exts s).length
+  if (firstGroup s).isNone && !rnd && !uni then some "ValueError"        -- no key word
+  else if !(rnd || uni) then none                                         -- plain group
+  else if nums.length ≥ 2 then some "ValueError"                          -- more than one number
+  else if rnd then (if count > size then some "ValueError" else none)     -- larger sample than the group
+  else if count = 0 then some "ZeroDivisionError"                         -- uniform, zero vials
+  else if size = 0 then some "ZeroDivisionError"                          -- uniform over an empty group
+  else none
+
+theorem interpretString_decision (arr : Arr) (nz : Nat) (exts : List Nat) (str : String) (choice : List Nat) :
+    match strOutcome arr nz exts str with
+    | some cls => interpretString arr nz exts str choice = .error cls
+    | none => ∃ p, interpretString arr nz exts str choice = .ok p := by
+  unfold strOutcome interpretString candidates
+  simp only
+  cases hg : firstGroup (lower str) with
+  | none =>
+    cases hr : hasSub "random".toList (lower str) <;> cases hu : hasSub "uniform".toList (lower str) <;>
+    (rcases hn : digitRuns (lower str) none with _ | ⟨n, _ | ⟨n2, rest⟩⟩) <;>
+    simp [bind, Except.bind, pure, Except.pure, throw, throwThe, MonadExceptOf.throw] <;>
+    (repeat' split) <;> simp_all
+  | some g =>
+    have hk := firstGroup_known hg
+    cases hr : hasSub "random".toList (lower str) <;> cases hu : hasSub "uniform".toList (lower str) <;>
+    (rcases hn : digitRuns (lower str) none with _ | ⟨n, _ | ⟨n2, rest⟩⟩) <;>
+    simp [maskOf_known arr nz exts hk, bind, Except.bind, pure, Except.pure, throw, throwThe, MonadExceptOf.throw] <;>
+    (repeat' split) <;> simp_all
+
+
+
+/-- a list of request strings fails with the class of its first malformed entry -/
+def strsOutcome (arr : Arr) (nz : Nat) (exts : List Nat) : List String → Option String
+  | [] => none
+  | s :: ss => match strOutcome arr nz exts s with
+    | some c => some c
+    | none => strsOutcome arr nz exts ss
+
+theorem interpretStrings_decision (arr : Arr) (nz : Nat) (exts : List Nat) (ss : List String) :
+    ∀ choices : List (List Nat),
+    match strsOutcome arr nz exts ss with
+    | some cls => interpretStrings arr nz exts ss choices = .error cls
+    | none => ∃ m, interpretStrings arr nz exts ss choices = .ok m := by
+  induction ss with
+  | nil => intro choices; exact ⟨_, rfl⟩
+  | cons s ss ih =>
+    intro choices
+    have h1 := interpretString_decision arr nz exts s (choices.headD [])
+    unfold strsOutcome
+    rw [interpretStrings]
+    cases hs : strOutcome arr nz exts s with
+    | some c =>
+      rw [hs] at h1
+      simp only at h1 ⊢
+      rw [h1]; rfl
+    | none =>
+      rw [hs] at h1
+      obtain ⟨⟨m, used⟩, hp⟩ := h1
+      rw [hp]
+      have h2 := ih (if used then choices.tail else choices)
+      simp only
+      cases hr : strsOutcome arr nz exts ss with
+      | some c =>
+        rw [hr] at h2; simp only at h2 ⊢
+        simp [bind, Except.bind, h2]
+      | none =>
+        rw [hr] at h2; simp only at h2 ⊢
+        obtain ⟨r, hr2⟩ := h2
+        exact ⟨orMask m r, by simp [bind, Except.bind, hr2, pure, Except.pure]⟩
+
+/-- a list/tuple given entry by entry is first classified by `classify` (all `int` →
+index list or boolean mask; all `str` → request strings; otherwise mixed) -/
+def normalize : Spec → Spec
+  | .seq items => classify items
+  | sp => sp
+
+/-- **category table for a `storeStates` argument** on a batch of `N = exts.length`
+vials (`none`: accepted; `some cls`: rejected at construction with that class). -/
+def specOutcome (arr : Arr) (nz : Nat) (exts : List Nat) (spec : Spec) : Option String :=
+  match normalize spec with
+  | .none => none
+  | .other => some "UnboundLocalError"                       -- not a list/tuple, string or None
+  | .mixed => some "ValueError"                              -- neither all int nor all str
+  | .ints xs =>                                              -- index out of range
+    if xs.any (fun x => decide (x > (exts.length : Int) - 1)) || xs.any (fun x => decide (x < 0))
+    then some "ValueError" else none
+  | .boolMask bs =>                                          -- range check with True = 1, then mask length
+    if bs.any (fun b => decide ((if b then 1 else 0 : Int) > (exts.length : Int) - 1)) then some "ValueError"
+    else if bs.length = exts.length then none else some "IndexError"
+  | .str s => strOutcome arr nz exts s
+  | .strs ss => strsOutcome arr nz exts ss
+  | .seq _ => some "unreachable"
+
+theorem classify_not_seq (items : List Item) : ∀ l, classify items ≠ .seq l := by
+  intro l; unfold classify; repeat' split
+  all_goals simp
+
+theorem storageMask_decision (arr : Arr) (nx ny nz : Nat) (spec : Spec) (choices : List (List Nat)) :
+    match specOutcome arr nz (extVec arr nx ny nz) spec with
+    | some cls => storageMask arr nx ny nz spec choices = .error cls
+    | none => ∃ p, storageMask arr nx ny nz spec choices = .ok p := by
+  have key : ∀ sp : Spec, (∀ l, sp ≠ .seq l) →
+      match specOutcome arr nz (extVec arr nx ny nz) sp with
+      | some cls => storageMask arr nx ny nz sp choices = .error cls
+      | none => ∃ p, storageMask arr nx ny nz sp choices = .ok p := by
+    intro sp hsp
+    cases sp with
+    | seq l => exact absurd rfl (hsp l)
+    | none => exact ⟨_, rfl⟩
+    | other => rfl
+    | mixed => rfl
+    | ints xs =>
+      simp only [specOutcome, normalize, storageMask, interpretInts]
+      by_cases hc : (xs.any (fun x => decide (x > ((extVec arr nx ny nz).length : Int) - 1))
+          || xs.any (fun x => decide (x < 0))) = true
+      · rw [if_pos hc, if_pos hc]; rfl
+      · rw [if_neg hc, if_neg hc]; exact ⟨_, rfl⟩
+    | boolMask bs =>
+      simp only [specOutcome, normalize, storageMask]
+      split <;> (try split) <;> simp_all
+    | str s =>
+      have := interpretString_decision arr nz (extVec arr nx ny nz) s (choices.headD [])
+      simp only [specOutcome, normalize, storageMask]
+      cases h : strOutcome arr nz (extVec arr nx ny nz) s with
+      | some c => rw [h] at this; simp only at this ⊢; rw [this]; rfl
+      | none => rw [h] at this; obtain ⟨p, hp⟩ := this; exact ⟨_, by rw [hp]; rfl⟩
+    | strs ss =>
+      have := interpretStrings_decision arr nz (extVec arr nx ny nz) ss choices
+      simp only [specOutcome, normalize, storageMask]
+      cases h : strsOutcome arr nz (extVec arr nx ny nz) ss with
+      | some c => rw [h] at this; simp only at this ⊢; rw [this]; rfl
+      | none => rw [h] at this; obtain ⟨p, hp⟩ := this; exact ⟨_, by rw [hp]; rfl⟩
+  cases spec with
+  | seq items =>
+    have h := key (classify items) (classify_not_seq items)
+    have e1 : specOutcome arr nz (extVec arr nx ny nz) (.seq items)
+        = specOutcome arr nz (extVec arr nx ny nz) (classify items) := by
+      unfold specOutcome normalize
+      cases hc : classify items <;> simp_all [classify_not_seq]
+    have e2 : storageMask arr nx ny nz (.seq items) choices = storageMask arr nx ny nz (classify items) choices := by
+      unfold storageMask
+      cases hc : classify items <;> simp_all [classify_not_seq]
+    rw [e1, e2]; exact h
+  | none => exact key Spec.none (fun l h => by cases h)
+  | other => exact key Spec.other (fun l h => by cases h)
+  | mixed => exact key Spec.mixed (fun l h => by cases h)
+  | ints xs => exact key (Spec.ints xs) (fun l h => by cases h)
+  | boolMask bs => exact key (Spec.boolMask bs) (fun l h => by cases h)
+  | str s => exact key (Spec.str s) (fun l h => by cases h)
+  | strs ss => exact key (Spec.strs ss) (fun l h => by cases h)
+
+
+
+theorem strOutcome_classes (arr : Arr) (nz : Nat) (exts : List Nat) (s c : String)
+    (h : strOutcome arr nz exts s = some c) : c = "ValueError" ∨ c = "ZeroDivisionError" := by
+  unfold strOutcome at h
+  simp only at h
+  repeat' split at h
+  all_goals simp_all
+
+theorem strsOutcome_classes (arr : Arr) (nz : Nat) (exts : List Nat) (ss : List String) (c : String)
+    (h : strsOutcome arr nz exts ss = some c) : c = "ValueError" ∨ c = "ZeroDivisionError" := by
+  induction ss with
+  | nil => simp [strsOutcome] at h
+  | cons s ss ih =>
+    unfold strsOutcome at h
+    cases hs : strOutcome arr nz exts s with
+    | some c' => rw [hs] at h; simp only [Option.some.injEq] at h; subst h; exact strOutcome_classes arr nz exts s _ hs
+    | none => rw [hs] at h; exact ih h
+
+theorem specOutcome_classes (arr : Arr) (nz : Nat) (exts : List Nat) (spec : Spec) (c : String)
+    (h : specOutcome arr nz exts spec = some c) :
+    c ∈ ["ValueError", "UnboundLocalError", "ZeroDivisionError", "IndexError"] := by
+  unfold specOutcome at h
+  cases hn : normalize spec with
+  | seq l =>
+    exfalso
+    cases spec <;> simp [normalize] at hn
+    exact classify_not_seq _ _ hn
+  | none => rw [hn] at h; simp at h
+  | other => rw [hn] at h; simp at h; simp [← h]
+  | mixed => rw [hn] at h; simp at h; simp [← h]
+  | ints xs => rw [hn] at h; simp only at h; split at h <;> simp_all
+  | boolMask bs => rw [hn] at h; simp only at h; repeat' split at h
+                   all_goals simp_all
+  | str s =>
+    rw [hn] at h
+    rcases strOutcome_classes arr nz exts s c h with r | r <;> simp [r]
+  | strs ss =>
+    rw [hn] at h
+    rcases strsOutcome_classes arr nz exts ss c h with r | r <;> simp [r]
+
 end Snow.Store
